@@ -5,6 +5,7 @@ import (
 	"fmt"
 	"math/rand"
 	"reflect"
+	"runtime"
 	"strings"
 	"time"
 	"unsafe"
@@ -368,6 +369,45 @@ func checkC10(e *core.Env) {
 		}
 		if strings.Join(seen["token"], "|") != "v1" || strings.Join(seen["multi"], "|") != "a|b" || len(seen["extra"]) != 0 {
 			e.Violate("ctx/md-snapshot", fmt.Sprintf("caller's later mutation of its metadata map is visible in the handler: token=%v multi=%v extra=%v", seen["token"], seen["multi"], seen["extra"]), nil)
+		}
+	})
+	checkC10OpenMutation(e)
+}
+
+// checkC10OpenMutation: the handler's metadata is a snapshot taken while NewStream runs; what the caller
+// does to its map the moment NewStream has returned (before the server side got to run) must not show.
+func checkC10OpenMutation(e *core.Env) {
+	prev := runtime.GOMAXPROCS(1) // the new server goroutine cannot run before the caller yields
+	defer runtime.GOMAXPROCS(prev)
+	e.Cases("caller-mutation-at-open", e.N(150, 2000), func(i int, r *rand.Rand) {
+		inner := NewInproc(&Service{}, carrierOpt{})
+		defer inner.Close()
+		kind := Kind(1 + r.Intn(3))
+		sc := genDeliveryScript(r, kind, true, false)
+		sc.ReqMD = metadata.MD{"token": {"v1"}, "multi": {"a", "b"}}
+		run := inner.Svc.NewRun(sc, "inproc")
+		var seen metadata.MD
+		run.OnHandler = func(hctx context.Context, rr *Run, _ grpc.ServerStream) {
+			seen, _ = metadata.FromIncomingContext(hctx)
+		}
+		run.AfterOpen = func() {
+			run.OutMD["token"][0] = "v2"
+			run.OutMD["multi"] = append(run.OutMD["multi"], "c")
+			run.OutMD["extra"] = []string{"y"}
+		}
+		ok, _ := run.Exec(inner.CC, nil, watchdog)
+		run.Cancel()
+		if !ok {
+			run.ReleaseAll()
+			e.Inconclusive("C10 caller-mutation-at-open: watchdog")
+			return
+		}
+		e.Eval(fmt.Sprintf("caller-mutation-at-open|%s", kind), true)
+		if seen == nil {
+			return
+		}
+		if strings.Join(seen["token"], "|") != "v1" || strings.Join(seen["multi"], "|") != "a|b" || len(seen["extra"]) != 0 {
+			e.Violate("ctx/md-snapshot-at-open", fmt.Sprintf("what the caller did to its metadata map right after NewStream returned is visible in the handler: token=%v multi=%v extra=%v", seen["token"], seen["multi"], seen["extra"]), nil)
 		}
 	})
 }
